@@ -560,3 +560,48 @@ func TestC10Close(t *testing.T) {
 		check(rt, tc)
 	})
 }
+
+// TestC10DeadlineRace: SetCloseDeadline called while the serve loop starts (and
+// a second time shortly after) with a silent peer: Serve must end with an error
+// when the deadline passes — never with nil, never early.  The schedule is
+// what varies, so the same tiny history is repeated many times.
+func TestC10DeadlineRace(t *testing.T) {
+	ev.Begin(t)
+	n := ev.N(600, 6000)
+	for i := 0; i < n; i++ {
+		sv, err := wire.NewServed(wire.SessionOpts{})
+		if err != nil {
+			t.Fatalf("harness: %v", err)
+		}
+		twice := i%2 == 1
+		yields := i % 5
+		ev.Case(true, fmt.Sprintf("deadline-race twice=%v yields=%d", twice, yields), "deadline-race")
+		sv.Start(nil)
+		for k := 0; k < yields; k++ {
+			runtime.Gosched()
+		}
+		t0 := time.Now()
+		d := 4 * time.Millisecond
+		if err := sv.Session.SetCloseDeadline(t0.Add(d)); err != nil {
+			t.Fatalf("harness: SetCloseDeadline: %v", err)
+		}
+		if twice {
+			runtime.Gosched()
+			_ = sv.Session.SetCloseDeadline(t0.Add(d))
+		}
+		if !sv.Wait(waitLong) {
+			buf := make([]byte, 1<<18)
+			buf = buf[:runtime.Stack(buf, true)]
+			ev.Failf(t, "iteration %d (twice=%v): Serve had not returned %v after a %v close deadline with a silent peer\n%s", i, twice, waitLong, d, buf)
+		}
+		if p := sv.Panic(); p != "" {
+			ev.Failf(t, "iteration %d: %s", i, p)
+		}
+		if sv.Err() == nil {
+			ev.Failf(t, "iteration %d (SetCloseDeadline %d yields after Serve was started, twice=%v): Serve returned nil after %v although the peer never closed its stream", i, yields, twice, time.Since(t0))
+		}
+		if el := time.Since(t0); el < d-time.Millisecond {
+			ev.Failf(t, "iteration %d: Serve returned %v after only %v, before the close deadline (%v) had passed", i, sv.Err(), el, d)
+		}
+	}
+}
